@@ -31,7 +31,7 @@ BYTES_BODY = b"xyz"
 STREAM_PARTS = (b"ab", b"c")
 STREAM_BODY = b"".join(STREAM_PARTS)
 DEVIATIONS = {
-    "EntityHeadersOnBodylessHop": "redirected request without content carries Content-Type (and Content-Length: 0)",
+    "EntityHeadersOnBodylessHop": "redirected GET/HEAD/DELETE without content carries Content-Type: application/octet-stream (and Content-Length: 0)",
     "FinalInOwnHistory": "3xx without Location is returned as the result and listed in its own history",
 }
 NONHTTP = {"ftp": "ftp://b/x", "mailto": "mailto:u@b", "ws": "ws://b/x", "js": "javascript:alert(1)"}
@@ -291,25 +291,41 @@ def execute(loop: steploop.StepLoop, cfg: dict, script: List[dict], opts: dict, 
 
 
 # ---------------------------------------------------------------- TLC state -> scenario
-def cfg_of_state(scn: dict) -> dict:
+def plain(x: Any) -> Any:
+    """engine.tlaval value -> plain JSON-like data (records inside sets come as tuples of pairs)."""
+    if isinstance(x, dict):
+        return {str(k): plain(v) for k, v in x.items()}
+    if isinstance(x, tuple) and x and all(isinstance(e, tuple) and len(e) == 2 and isinstance(e[0], str) for e in x):
+        return {str(k): plain(v) for k, v in x}
+    if isinstance(x, (list, tuple)):
+        return [plain(e) for e in x]
+    if isinstance(x, (set, frozenset)):
+        return sorted((plain(e) for e in x), key=lambda e: json.dumps(e, sort_keys=True))
+    if isinstance(x, bool) or isinstance(x, int):
+        return x
+    return str(x)
+
+
+def cfg_of_state(scn: Any) -> dict:
+    scn = plain(scn)
     o = scn["url"]["o"]
     port = int(o["port"])
     return {
-        "url": {"scheme": str(o["scheme"]), "host": [str(x) for x in o["host"]],
-                "port": 0 if port == default_port(str(o["scheme"])) else port,
-                "dir": str(scn["url"]["dir"]), "leaf": str(scn["url"]["leaf"])},
-        "userinfo": bool(scn["userinfo"]), "method": str(scn["method"]), "body": str(scn["body"]),
-        "hdrs": sorted(str(h) for h in scn["hdrs"]), "reqCookies": bool(scn["reqCookies"]),
+        "url": {"scheme": o["scheme"], "host": list(o["host"]),
+                "port": 0 if port == default_port(o["scheme"]) else port,
+                "dir": scn["url"]["dir"], "leaf": scn["url"]["leaf"]},
+        "userinfo": bool(scn["userinfo"]), "method": scn["method"], "body": scn["body"],
+        "hdrs": sorted(scn["hdrs"]), "reqCookies": bool(scn["reqCookies"]),
         "params": bool(scn["params"]), "maxRedirects": int(scn["maxRedirects"]),
-        "jar": sorted(({"name": str(c["name"]), "host": [str(x) for x in c["host"]], "hostOnly": bool(c["hostOnly"]),
-                        "dir": str(c["dir"]), "secure": bool(c["secure"])} for c in scn["jar"]),
+        "jar": sorted(({"name": c["name"], "host": list(c["host"]), "hostOnly": bool(c["hostOnly"]),
+                        "dir": c["dir"], "secure": bool(c["secure"])} for c in scn["jar"]),
                       key=lambda c: c["name"]),
     }
 
 
 def script_of_state(script: List[dict]) -> List[dict]:
     out = []
-    for r in script:
+    for r in plain(script):
         d = blank_resp()
         d.update(kind=str(r["kind"]), status=int(r["status"]), form=str(r["form"]), sch=str(r["sch"]),
                  host=[str(x) for x in r["host"]], port=int(r["port"]), dir=str(r["dir"]), leaf=str(r["leaf"]),
@@ -509,11 +525,16 @@ def judge(ctx: Ctx, traces: List[dict], label: str) -> None:
         hard = v.clause not in DEVIATIONS
         if hard and v.clause == "HarnessOrder":
             raise MachineryError(f"driver mis-sequenced events: {json.dumps(t)[:1500]}")
+        counts = ctx.extra.setdefault("clause_counts", {})
         for d in sorted(set(devs)):
-            ctx.violation(d, f"{d}: {DEVIATIONS[d]}", {"trace": t, "failed_at": v.pos, "label": label}, "trace")
+            counts[d] = counts.get(d, 0) + 1
+            if counts[d] <= 25:       # every occurrence is counted, the first few are kept as replays
+                ctx.violation(d, f"{d}: {DEVIATIONS[d]}", {"trace": t, "failed_at": v.pos, "label": label}, "trace")
         if hard:
-            ctx.violation(v.clause, f"{v.clause} after {chain_sig(t, v.pos)}",
-                          {"trace": t, "failed_at": v.pos, "label": label}, "trace")
+            counts[v.clause] = counts.get(v.clause, 0) + 1
+            if counts[v.clause] <= 200:
+                ctx.violation(v.clause, f"{v.clause} after {chain_sig(t, v.pos)}",
+                              {"trace": t, "failed_at": v.pos, "label": label}, "trace")
     t0 = traces[0]
     ctx.sample({"src": t0["src"], "init": {k: t0["cfg"][k] for k in ("method", "body", "hdrs", "maxRedirects")},
                 "events": [{k: e[k] for k in e if k in ("ev", "o", "leaf", "method", "auth", "cookies", "status", "form",
@@ -535,49 +556,53 @@ def run(ctx: Ctx) -> None:
         "301/302 + POST -> GET is taken as the documented table (RFC 9110 allows keeping POST)",
     ]
     loop = steploop.new_loop()
-    # ---- 1. the reference itself: exhaustive for chains <= 2 (<= 3 for the jar slice), -simulate beyond
-    models = [("cred", cfg_cred(maxrs=ctx.pick((2, 3), (1, 2, 3)), setcs=ctx.pick((False,), (False, True)))),
+    # ---- 1. the reference itself: exhaustive for chains <= 2 (<= 3 for the jar slice)
+    models = [("cred", cfg_cred(maxrs=ctx.pick((2, 3), (1, 2, 3)), reqcks=ctx.pick((True,), (False, True)),
+                                setcs=ctx.pick((False,), (False, True)))),
               ("table", cfg_table(setcs=ctx.pick((False,), (False, True)), params=ctx.pick((False,), (False, True)))),
               ("jar", cfg_jar())]
     if not ctx.quick:
-        models.append(("full2", write_cfg("full2", mbs="MB_All", statuses=(301, 302, 303, 307, 308), startos="SO_All",
-                                          hdrsets="H_Two", reqcks=(True,))))
+        # the whole alphabet at once, chains <= 2 (about 2 * 10^6 states)
+        models.append(("full2", write_cfg("full2", mbs="MB_All", statuses=(301, 302, 303, 307, 308), hdrsets="H_Two",
+                                          reqcks=(True,))))
     for name, cfg in models:
         res = run_tlc("RedirectsMC", cfg, workers=16, timeout=ctx.pick(600, 3000), deadlock=False)
         ok = ctx.expect_model_ok(f"RedirectsMC[{name}]", res)
         ctx.log(f"model {name}: {res.distinct} states, ok={ok}, {res.wall_s:.0f}s")
-    sim_cfg = write_cfg("sim", mbs="MB_All", statuses=(301, 302, 303, 307, 308), startos="SO_All", setcs=(False, True),
-                        params=(False, True), maxhops=3)
-    res = run_tlc("RedirectsMC", sim_cfg, workers=16, simulate=f"num={ctx.pick(20000, 400000)}", depth=5, seed=ctx.seed,
-                  timeout=ctx.pick(300, 1500), deadlock=False)
-    ctx.expect_model_ok("RedirectsMC[simulate, chains <= 3]", res, exhaustive=False)
-    ctx.log(f"model simulate (chains <= 3): {res.generated} states generated, violated={res.violated}")
-    # ---- 2. spec -> code: transition cover of small trees + simulated behaviours, replayed
+    # ---- 2. spec -> code.  (a) -simulate over the full alphabet, chains <= 3: the invariants are checked on
+    #         every simulated state and every behaviour is replayed against the code
     traces: List[dict] = []
-    covers = [("cred", cfg_cred(mbs="MB_One", hdrsets="H_Two", reqcks=(True,), maxrs=(3,), statuses=(307,))),
+    sim_cfg = write_cfg("sim", mbs="MB_All", statuses=(302, 303, 307), startos="SO_All", setcs=(False, True),
+                        params=(False, True), maxhops=3)
+    sims, res = simulate_behaviours("RedirectsMC", sim_cfg, num=ctx.pick(400, 3000), depth=5, seed=ctx.seed,
+                                    timeout=ctx.pick(600, 3000))
+    m = re.search(r"The number of states generated: (\d+)", res.output)
+    if m:
+        res.generated = res.distinct = int(m.group(1))
+    ctx.expect_model_ok("RedirectsMC[simulate, chains <= 3]", res, exhaustive=False)
+    traces += replay_behaviours(ctx, loop, sims, "tlc-sim")
+    ctx.log(f"simulated + replayed {len(sims)} behaviours (chains <= 3, {res.generated} states), violated={res.violated}")
+    #         (b) transition cover of three small trees: every edge of the model is driven through the code
+    covers = [("forms2", cfg_cred(mbs="MB_One", hdrsets="H_Two", reqcks=(True,), maxrs=(3,), statuses=(307,))),
+              ("chain3", cfg_cred(mbs="MB_One", hdrsets="H_Two", reqcks=(True,), maxrs=(4,), statuses=(307,), maxhops=3,
+                                  forms=("abs", "cred", "schemerel", "abspath", "relseg"))),
               ("table", cfg_table(maxrs=(2,), targets="T_B", forms=("abs", "abspath", "missing")))]
-    ncover = 0
+    if not ctx.quick:
+        covers.append(("table3", cfg_table(maxrs=(3,), targets="T_B", forms=("abs", "abspath"), maxhops=3,
+                                           statuses=(302, 303, 307))))
     for name, cfg in covers:
-        behs, cres = cover_behaviours("RedirectsMC", cfg, timeout=600)
-        ncover += len(behs)
+        behs, cres = cover_behaviours("RedirectsMC", cfg, timeout=900)
         ctx.extra.setdefault("transition_cover", []).append(
-            {"model": f"RedirectsMC[{name}-cover]", "paths": len(behs), "states": cres.distinct})
+            {"model": f"RedirectsMC[{name}]", "paths": len(behs), "states": cres.distinct})
         traces += replay_behaviours(ctx, loop, behs, "tlc-cover")
         ctx.log(f"replayed {len(behs)} transition-cover paths of {name} ({cres.distinct} states)")
-    judge(ctx, traces, "tlc-cover")
-    sims, _ = simulate_behaviours("RedirectsMC", sim_cfg, num=ctx.pick(700, 8000), depth=5, seed=ctx.seed, timeout=600)
-    traces = replay_behaviours(ctx, loop, sims, "tlc-sim")
-    ctx.log(f"replayed {len(sims)} simulated behaviours (chains <= 3)")
-    judge(ctx, traces, "tlc-sim")
     # ---- 3. code -> spec: random longer chains over more origins
-    batch: List[dict] = []
-    for _ in range(ctx.pick(1500, 30000)):
+    for _ in range(ctx.pick(2000, 20000)):
         cfg, script = random_scenario(ctx.rng)
-        batch.append(execute(loop, cfg, script, driver_opts(ctx.rng), "random"))
-        if len(batch) >= 3000:
-            judge(ctx, batch, "random")
-            batch = []
-    judge(ctx, batch, "random")
+        traces.append(execute(loop, cfg, script, driver_opts(ctx.rng), "random"))
+    ctx.log(f"executed {len(traces)} scenarios against the real ClientSession; validating")
+    for i in range(0, len(traces), 6000):
+        judge(ctx, traces[i:i + 6000], "all")
     ctx.evaluations = ctx.traces
     ctx.extra["replay_action_counts"] = dict(ctx.action_cover)
     loop.uninstall()
